@@ -810,6 +810,67 @@ def validate_trace(ctx, rec, path):
 
 
 # ---------------------------------------------------------------------------------------------------------------
+# S2C replays are spread over worker processes: a worker records what it would tell the context, the parent applies it
+class Collector:
+    def __init__(self, quick):
+        self.calls = []
+        self.traces = 0
+        self.skipped = 0
+        self.quick = quick
+
+    def violation(self, *a, **kw):
+        self.calls.append(('violation', a, kw))
+        return False
+
+    def case(self, *a, **kw):
+        self.calls.append(('case', a, kw))
+
+    def sample(self, *a, **kw):
+        self.calls.append(('sample', a, kw))
+
+    def leg(self, *a, **kw):
+        self.calls.append(('leg', a, kw))
+
+    def pick(self, q, t):
+        return q if self.quick else t
+
+
+_JOB = {}
+
+
+def _replay_chunk(args):
+    kind, idx = args
+    col = Collector(_JOB['quick'])
+    cases = _JOB['chunks'][idx]
+    if kind == 'postings':
+        replay_posting_cases(col, _JOB['tables'], cases, _JOB['what'])
+    else:
+        replay_print_cases(col, _JOB['tables'], cases, _JOB['what'])
+    return col.calls, col.traces, col.skipped
+
+
+def parallel_replay(ctx, tables, cases, kind, what, procs=6):
+    import concurrent.futures as cf
+    import multiprocessing
+    if len(cases) < 400:
+        return (replay_posting_cases if kind == 'postings' else replay_print_cases)(ctx, tables, cases, what)
+    by_ledger = collections.defaultdict(list)
+    for c in cases:
+        by_ledger[tuple(c['l'])].append(c)
+    chunks = [[] for _ in range(procs * 3)]
+    for n, (led, cs) in enumerate(sorted(by_ledger.items())):
+        chunks[n % len(chunks)].extend(cs)
+    chunks = [c for c in chunks if c]
+    _JOB.update(tables=tables, chunks=chunks, what=what, quick=ctx.quick)
+    with cf.ProcessPoolExecutor(procs, mp_context=multiprocessing.get_context('fork')) as ex:
+        for calls, traces, skipped in ex.map(_replay_chunk, [(kind, i) for i in range(len(chunks))]):
+            ctx.traces += traces
+            ctx.skipped += skipped
+            for name, a, kw in calls:
+                getattr(ctx, name)(*a, **kw)
+    _JOB.clear()
+
+
 def load_tables(ctx):
     res = ctx.tlc('Gen_Statements', 'Gen_StatementsTab.cfg', leg='GEN-tables', workers=1, jvm=JVM)
     if len(res.printed) != 1:
@@ -879,16 +940,16 @@ def run(ctx):
             cases = res.printed
             ctx.log('S2C: %d cases emitted' % len(cases))
             preparse([text_of(sh[k]) for sh in tables['shapes'] + tables['printshapes'] for k in ('short', 'expanded')])
-            replay_posting_cases(ctx, tables, [c for c in cases if c['t'] == 'postings'], 'posting_cases')
-            replay_print_cases(ctx, tables, [c for c in cases if c['t'] == 'entries'], 'print_cases')
+            parallel_replay(ctx, tables, [c for c in cases if c['t'] == 'postings'], 'postings', 'posting_cases')
+            parallel_replay(ctx, tables, [c for c in cases if c['t'] == 'entries'], 'entries', 'print_cases')
             nsim = ctx.pick(1500, 40000)
             w = 4
             res = ctx.tlc('Gen_Statements', 'Gen_StatementsSim.cfg', leg='GEN-sim', simulate='num=%d' % max(1, nsim // (w * 5)),
                           depth=7, seed=ctx.seed, workers=w, jvm=JVM)
             cases = res.printed
             ctx.log('S2C: %d simulated cases emitted' % len(cases))
-            replay_posting_cases(ctx, tables, [c for c in cases if c['t'] == 'postings'], 'simulated_posting_cases')
-            replay_print_cases(ctx, tables, [c for c in cases if c['t'] == 'entries'], 'simulated_print_cases')
+            parallel_replay(ctx, tables, [c for c in cases if c['t'] == 'postings'], 'postings', 'simulated_posting_cases')
+            parallel_replay(ctx, tables, [c for c in cases if c['t'] == 'entries'], 'entries', 'simulated_print_cases')
             direct_cases(ctx, tables)
         # ---- C2S
         if want('C2S'):
@@ -902,11 +963,11 @@ def run(ctx):
             led = tuple(sorted(range(1, len(tables['pool']) + 1), key=lambda k: tables['pool'][k - 1]['txn']))
             allidx = list(range(len(big)))
             # quick: one seeded subset of the big table, used on every ledger (parsing a text costs 30-100 ms)
-            subset = sorted(rng.sample(allidx, 150)) if ctx.quick else allidx
+            subset = sorted(rng.sample(allidx, 130)) if ctx.quick else allidx
             preparse([text_of(big[i][k]) for i in subset for k in ('short', 'expanded')])
             nrun += record_ledger(ctx, rec, 'pool', build_pool_ledger(tables, led), None, big, subset, psh)
             # random ledgers
-            for k in range(ctx.pick(5, 40)):
+            for k in range(ctx.pick(4, 40)):
                 entries = random_ledger(rng, rng.choice([3, 8, 20, 40]))
                 nrun += record_ledger(ctx, rec, 'random-%d' % k, entries, None, big,
                                       subset if ctx.quick else rng.sample(allidx, 200), psh)
